@@ -430,6 +430,88 @@ func main() {
 			t.Outcome("same")
 		})
 
+		// The receive loop of example/autobahn: msg, err = wsutil.ReadClientMessage(conn, msg[:0]) -
+		// one message slice recycled for the life of the connection, whatever earlier messages have
+		// left in its spare capacity. A first message of some size (whole or fragmented), then a
+		// fragmented one with a ping between its fragments, then a third: every call returns exactly
+		// the frames' payloads, control messages included.
+		r.Part("E11-receive-loop-with-a-recycled-message-slice", func(t *explore.T) {
+			type shape struct {
+				first, frag1, frag2 int
+				firstFragmented     bool
+				ping                int
+			}
+			var shapes []shape
+			for _, first := range []int{0, 5, 600, 2000, 70000} {
+				for _, ff := range []bool{false, true} {
+					for _, fr := range [][2]int{{5, 5}, {0, 3}, {300, 300}, {1, 1200}} {
+						for _, ping := range []int{0, 12, 125} {
+							shapes = append(shapes, shape{first, fr[0], fr[1], ff, ping})
+						}
+					}
+				}
+			}
+			t.Par(len(shapes), func(i int) {
+				sh := shapes[i]
+				for _, side := range []streams.Side{streams.Server, streams.Client} {
+					side := side
+					t.Do(func() string {
+						return fmt.Sprintf("%s first message %d bytes (fragmented=%v), then %d + ping(%d) + %d bytes, then a short one; ReadClient/ServerMessage(conn, msg[:0])", side, sh.first, sh.firstFragmented, sh.frag1, sh.ping, sh.frag2)
+					}, func() *explore.Fail {
+						gen := func(n int, seed byte) []byte {
+							b := make([]byte, n)
+							for k := range b {
+								b[k] = seed + byte(k%23)
+							}
+							return b
+						}
+						mk := func(i int, op byte, fin bool, p []byte) streams.Frame {
+							return streams.Frame{H: refmodel.Hdr{Fin: fin, Op: op, Masked: side == streams.Server, Mask: streams.Masks[i%3]}, Payload: p}
+						}
+						var frames []streams.Frame
+						f := gen(sh.first, 'A')
+						if sh.firstFragmented {
+							frames = append(frames, mk(0, 2, false, f[:sh.first/2]), mk(1, 0, true, f[sh.first/2:]))
+						} else {
+							frames = append(frames, mk(0, 2, true, f))
+						}
+						frames = append(frames, mk(2, 2, false, gen(sh.frag1, 'a')), mk(3, 9, true, gen(sh.ping, '0')), mk(4, 0, true, gen(sh.frag2, 'k')), mk(5, 2, true, []byte("third")))
+						data, _ := streams.Wire(frames)
+						want, _ := refmodel.Messages(frames)
+						src := env.NewSrc(data)
+						var msg []wsutil.Message
+						var got []drivers.Event
+						for {
+							var err error
+							if side == streams.Server {
+								msg, err = wsutil.ReadClientMessage(src, msg[:0])
+							} else {
+								msg, err = wsutil.ReadServerMessage(src, msg[:0])
+							}
+							if err != nil {
+								if err != io.EOF {
+									return explore.Failf("receive-loop-error", "%v", err)
+								}
+								break
+							}
+							for _, m := range msg {
+								kind := "msg"
+								if m.OpCode.IsControl() {
+									kind = "ctl"
+								}
+								got = append(got, drivers.Event{Kind: kind, Op: byte(m.OpCode), Payload: append([]byte{}, m.Payload...)})
+							}
+						}
+						if !drivers.EqualEvents(got, want) {
+							return explore.Failf("recycled-message-slice-delivers-wrong-payloads", "got  %s\nwant %s", drivers.FmtEvents(got), drivers.FmtEvents(want))
+						}
+						return nil
+					})
+				}
+			})
+			t.Outcome("delivered-as-model")
+		})
+
 		// "Any number of fragments (including empty ones), control frames interleaved anywhere": a
 		// message whose first and last fragment are separated by a long run of frames that carry no
 		// message bytes - empty continuations, pings, pongs, or a mix - through every driver.
